@@ -15,6 +15,18 @@ use serde_json::{json, Value};
 
 pub type Log = Vec<String>;
 
+/// An argument whose `Display` implementation records something itself (a fastrace-aware value, a logger):
+/// what `#[trace(properties = ..)]` formats may call back into the library.
+#[derive(Clone, Copy)]
+pub struct Rec;
+impl std::fmt::Display for Rec {
+    fn fmt(&self, f: &mut std::fmt::Formatter<'_>) -> std::fmt::Result {
+        fastrace::local::LocalSpan::add_event(fastrace::Event::new("fmt-ev"));
+        write!(f, "W")
+    }
+}
+
+
 pub fn ok_fn(log: &mut Log, i: usize) -> Result<i32, String> {
     log.push(format!("ok:{i}"));
     Ok(1)
